@@ -177,13 +177,23 @@ func vfDescribeSuites(suites map[string]*conformancev1.TestSuite) []string {
 // vfCheckLibrary compares one expansion with the model; returns a digest of
 // the observable result (names + request fields + grouping).
 func vfCheckLibrary(rep *verifkit.Report, suites map[string]*conformancev1.TestSuite, cases []configCase, mode conformancev1.TestSuite_TestMode, label string) string {
+	return vfCheckLibraryLive(rep, suites, nil, cases, mode, label)
+}
+
+// vfCheckLibraryLive: live, when given, are the suite objects handed to the
+// library (parsed once and expanded repeatedly, as TestRun and embedding
+// programs do); the model always works from the pristine definitions.
+func vfCheckLibraryLive(rep *verifkit.Report, suites, live map[string]*conformancev1.TestSuite, cases []configCase, mode conformancev1.TestSuite_TestMode, label string) string {
 	rep.Eval(1)
 	w := map[string]any{"suites": vfDescribeSuites(suites), "mode": mode.String(), "config_cases": len(cases), "cases_from": label}
 	rep.InFlight(w)
 	invalid := vfLibraryInvalid(suites, cases, mode)
 	var lib *testCaseLibrary
 	var err error
-	if p := verifkit.Catch(func() { lib, err = newTestCaseLibrary(vfCloneSuites(suites), cases, mode) }); p != nil {
+	if live == nil {
+		live = vfCloneSuites(suites)
+	}
+	if p := verifkit.Catch(func() { lib, err = newTestCaseLibrary(live, cases, mode) }); p != nil {
 		rep.Violation("library/panic/"+p.Site, "newTestCaseLibrary panicked: "+p.Value, map[string]any{"input": w, "stack": p.Stack})
 		return "panic"
 	}
@@ -336,7 +346,7 @@ func vfModelCases(cfg *conformancev1.Config) []configCase {
 // driver can compare a second process (map iteration order differs).
 func TestVerifC07Library(t *testing.T) {
 	runIdx := verifkit.EnvInt("VERIF_RUNIDX", 0)
-	rep := verifkit.Begin("C07", fmt.Sprintf("library-%d", runIdx), "generated suite sets (1-4 suites; every combination of mode, relevance lists, reliance directives; 1-5 tests of mixed stream types; explicit/implicit/half-specified service+method; raw request/response shapes; duplicate suite and test names) x config cases (default config, shipped reference config, model-expanded random configs, random subsets, singletons) x 3 run modes, each expanded 5x; distinct = inputs on which a valid expansion was compared element-wise")
+	rep := verifkit.Begin("C07", fmt.Sprintf("library-%d", runIdx), "generated suite sets (1-4 suites; every combination of mode, relevance lists, reliance directives; 1-5 tests of mixed stream types; explicit/implicit/half-specified service+method; raw request/response shapes; duplicate suite and test names) x config cases (default config, shipped reference config, model-expanded random configs, random subsets, singletons) x 3 run modes, each expanded 5x from the same parsed suite objects with expansions for other configurations in between; distinct = inputs on which a valid expansion was compared element-wise")
 	defer rep.Write()
 	defData, _ := protojson.Marshal(&conformancev1.Config{})
 	defCases, err := parseConfig("default", defData)
@@ -385,8 +395,27 @@ func TestVerifC07Library(t *testing.T) {
 		}
 		mode := conformancev1.TestSuite_TestMode(rng.Intn(3))
 		first := ""
+		// the same parsed suites are expanded again and again, with other configurations in between
+		live := vfCloneSuites(suites)
 		for rpt := 0; rpt < 5; rpt++ {
-			d := vfCheckLibrary(rep, suites, cases, mode, label)
+			if rpt > 0 && len(refCases) > 0 {
+				var other []configCase
+				switch rng.Intn(3) {
+				case 0:
+					other = []configCase{verifkit.Pick(rng, refCases)}
+				case 1:
+					other = vfModelCases(vfRandConfig(rng))
+				default:
+					for _, c := range refCases {
+						if rng.Chance(1, 30) {
+							other = append(other, c)
+						}
+					}
+				}
+				rep.Count("interleaved_other_config", 1)
+				vfCheckLibraryLive(rep, suites, live, other, conformancev1.TestSuite_TestMode(rng.Intn(3)), "other configuration between repeats")
+			}
+			d := vfCheckLibraryLive(rep, suites, live, cases, mode, label)
 			if rpt == 0 {
 				first = d
 			} else if d != first {
